@@ -3,7 +3,7 @@
 cd "$(dirname "$0")/.."
 for s in "$@"; do
   for p in C01 C02 C03 C04 C05 C06 C07 C08 C09 C10 C11 C12 C13 C14 C15 C16 C17 C18 C19 C20; do
-    out=$(VERIF_SEED=$s VERIF_REPLAYS=/tmp/allquick-replays python3 tools/check.py $p --tier quick 2>&1); rc=$?
+    out=$(VERIF_SEED=$s VERIF_REPLAYS=/tmp/allquick-replays VERIF_EVIDENCE=/tmp/allquick-evidence python3 tools/check.py $p --tier quick 2>&1); rc=$?
     echo "seed=$s $p rc=$rc $(echo "$out" | tail -1)"
     echo "$out" | grep -m3 "VIOLATION\|INFRA" 
   done
